@@ -222,6 +222,45 @@ def rule_esc(ctx) -> None:
     ctx.floor("C04.ESC", "store/cache call sites in apply_changes", n_sites, 3)
 
 
+def rule_esc_snapshot_reads(ctx) -> None:
+    """"errors inside the store never abort the turn" also where the snapshot reads the store: on cadence turns apply_changes
+    calls write_snapshot AFTER the deltas were applied and the version bumped, and the export walks the store again.  Every
+    expression of the export that touches the store (getattr on it, calling what it handed out, iterating / converting its
+    weights) sits under a catch-all - otherwise a store fault there propagates out of run_turn with no apply / turn record."""
+    ex = ctx.prog.funcs.get("clematis.engine.snapshot:_export_store_for_snapshot")
+    if ex is None:
+        raise AnalysisError("anchor-vanished: _export_store_for_snapshot")
+    ctx.analysed_funcs.add(ex.qual)
+    # it is reached from apply_changes through write_snapshot
+    ws = ctx.func("clematis.engine.snapshot:write_snapshot")
+    if not any(isinstance(x, ast.Call) and call_tail(x) == ex.name for x in walk_no_defs(ws.node)) or not any(isinstance(x, ast.Call) and call_tail(x) == "write_snapshot" for x in walk_no_defs(ctx.func(APPLY).node)):
+        raise AnalysisError("anchor-vanished: apply_changes -> write_snapshot -> _export_store_for_snapshot")
+    rd = ctx.rd(ex)
+    tainted = {ex.params[0]}
+    changed = True
+    while changed:
+        changed = False
+        for d in rd.all_defs:
+            if d.name not in tainted and d.value is not None and any(isinstance(y, ast.Name) and y.id in tainted for y in ast.walk(d.value)):
+                tainted.add(d.name)
+                changed = True
+            if d.name not in tainted and d.kind in ("for", "unpack") and d.value is not None and any(isinstance(y, ast.Name) and y.id in tainted for y in ast.walk(d.value)):
+                tainted.add(d.name)
+                changed = True
+    touches = []
+    for x in walk_no_defs(ex.node):
+        if isinstance(x, ast.Call) and dotted(x.func) not in ("isinstance", "callable", "str", "len") and \
+                (any(isinstance(y, ast.Name) and y.id in tainted for a in x.args for y in ast.walk(a)) or (isinstance(x.func, ast.Attribute) and any(isinstance(y, ast.Name) and y.id in tainted for y in ast.walk(x.func.value)))
+                 or (isinstance(x.func, ast.Name) and x.func.id in tainted)):
+            touches.append(x)
+    ctx.floor("C04.ESC", "store reads of the snapshot export", len(touches), 4)
+    for x in touches:
+        t = guarded_by_catch_all(ctx.prog, ex, x)
+        ctx.check(t is not None, "C04.ESC", ctx.okey(f"{ex.qual}/store-read-guarded"), ex.loc(x), f"`{src(x)[:40]}` reads the store under a catch-all",
+                  f"`{src(x)[:50]}` reads the store outside any try: on a snapshot turn a store fault here (a weight view that raises, a non-numeric weight) leaves apply_changes after the deltas were "
+                  "applied and the version bumped - the turn aborts without apply / turn records")
+
+
 def _esc_sites(ctx, fn, allow) -> int:
     cfg = ctx.cfg(fn)
     n_sites = 0
@@ -584,6 +623,7 @@ def run(ctx) -> None:
     rule_once(ctx)
     rule_batch(ctx)
     rule_esc(ctx)
+    rule_esc_snapshot_reads(ctx)
     rule_bust(ctx)
     rule_cad(ctx)
     rule_snapshot_written(ctx)
